@@ -1,0 +1,43 @@
+//go:build verif
+
+package idx
+
+// Machine-checked contracts for /verif (read as text by the VC generator; no code).
+//
+//@ func (Epoch).Bytes
+//@   ensures  len(result) == 4 && be32(result) == e && fresh(result)
+//@ func BytesToEpoch
+//@   requires len(b) >= 4
+//@   ensures  result == be32(b)
+//@ func (Event).Bytes
+//@   ensures  len(result) == 4 && be32(result) == e && fresh(result)
+//@ func BytesToEvent
+//@   requires len(b) >= 4
+//@   ensures  result == be32(b)
+//@ func (Lamport).Bytes
+//@   ensures  len(result) == 4 && be32(result) == l && fresh(result)
+//@ func BytesToLamport
+//@   requires len(b) >= 4
+//@   ensures  result == be32(b)
+//@ func (Pack).Bytes
+//@   ensures  len(result) == 4 && be32(result) == p && fresh(result)
+//@ func BytesToPack
+//@   requires len(b) >= 4
+//@   ensures  result == be32(b)
+//@ func (ValidatorID).Bytes
+//@   ensures  len(result) == 4 && be32(result) == s && fresh(result)
+//@ func BytesToValidatorID
+//@   requires len(b) >= 4
+//@   ensures  result == be32(b)
+//@ func (Frame).Bytes
+//@   ensures  len(result) == 4 && be32(result) == f && fresh(result)
+//@ func BytesToFrame
+//@   requires len(b) >= 4
+//@   ensures  result == be32(b)
+//@ func (Block).Bytes
+//@   ensures  len(result) == 8 && be64(result) == b && fresh(result)
+//@ func BytesToBlock
+//@   requires len(b) >= 8
+//@   ensures  result == be64(b)
+//@ func MaxLamport
+//@   ensures  result == max(x, y)
